@@ -119,15 +119,43 @@ def sampled(rng, n_cases):
     return out
 
 
+def rewired(rng, n_cases):
+    """declare a graph, ask, then re-wire components through update_derived / update_reaction (new argument
+    lists, including the empty list) and ask again: the answer must be the one of the re-wired graph"""
+    out = []
+    for _ in range(n_cases):
+        n = rng.randint(2, 6)
+        reqs = [rng.sample([f"c{j}" for j in range(n)] + ["p", "x", "zz"], rng.randint(0, 2)) for _ in range(n)]
+        kinds = [rng.choice("dr") for _ in range(n)]
+        order = list(range(n))
+        rng.shuffle(order)
+        content = mk_content(reqs, kinds, order)
+        edits = []
+        for i in rng.sample(range(n), rng.randint(1, min(3, n))):
+            new = rng.sample([f"c{j}" for j in range(n) if j != i] + ["p", "x"], rng.choice([0, 0, 1, 2]))
+            edits.append(["update_derived" if kinds[i] == "d" else "update_reaction", f"c{i}",
+                          {"args": new, "e": sum_expr(len(new))}])
+        out.append({"content": content, "queries": QUERIES, "decl_seed": rng.randrange(1 << 30), "edit": edits,
+                    "shape": "rewired"})
+    return out
+
+
 def judge_case(ctx, case, R, M, S):
     if any(s == "inexact" for s in S):
         return
     nontrivial = any(f["args"] for _, f in case["content"]["derived"]) or len(case["content"]["pars"]) > 1 \
         or any(r["args"] for _, r in case["content"]["rxns"]) or bool(case["content"]["surs"])
     ctx.count({k: case[k] for k in ("content", "queries")}, case.get("shape", ""), nontrivial)
-    for i, q in enumerate(case["queries"]):
+    nq = len(case["queries"])
+    for i in range(len(R)):
+        q = case["queries"][i % nq]
         sub = {"content": case["content"], "queries": [q], "decl_seed": case.get("decl_seed", 0)}
-        ctx.judge(sub, R[i], S[i], None if M is None else M[i], what=f"query {q[0]}")
+        if i >= nq:
+            sub["edit"] = case["edit"]
+            Ri, Si, Mi = [R[i - nq], R[i]], [S[i - nq], S[i]], None if M is None else [M[i - nq], M[i]]
+        else:
+            Ri, Si, Mi = R[i], S[i], None if M is None else M[i]
+        ctx.judge(sub, Ri, Si, Mi, what=f"query {q[0]}" + (" after re-wiring" if i >= nq else ""))
 
 
 def run_batch(ctx, cases):
@@ -178,6 +206,21 @@ def run(ctx):
     ctx.exhaustive = False  # the sampled stratum below is not exhaustive
     ctx.extra_cov.setdefault("exhaustive_strata", []).insert(0, "all 32768 graphs on <=3 components" + (" x all 6 orders" if thorough else " x 2 orders (all 6 on 1/16)"))
     run_batch(ctx, sampled(ctx.rng, ctx.n(1500, 40000)))
+    run_batch(ctx, rewired(ctx.rng, ctx.n(600, 10000)))
+    if thorough:
+        # long chains declared back to front / shuffled: the iteration budget must cover n(n+1)/2
+        big = []
+        for n in (60, 100, 150, 220):
+            for mode in ("rev", "shuffle"):
+                reqs = [["p"]] + [[f"c{i-1}"] for i in range(1, n)]
+                order = list(range(n))
+                if mode == "rev":
+                    order.reverse()
+                else:
+                    ctx.rng.shuffle(order)
+                big.append({"content": mk_content(reqs, ["d"] * n, order), "queries": [["init"]], "decl_seed": n,
+                            "shape": f"bigchain{n}"})
+        run_batch(ctx, big)
 
 
 def replay(ctx, rp):
